@@ -88,6 +88,16 @@ class PathVal(Model):
         return flavour or self.flavour
 
     def to_str(self, it):
+        # str() of a relative path with no part is ".", with exactly one part it is that part (T-path)
+        if isinstance(self.anchor, str) and self.anchor == "":
+            ps = z3.simplify(self.parts)
+            if z3.is_app(ps) and ps.decl().kind() == z3.Z3_OP_SEQ_EMPTY:
+                return "."
+            if z3.is_app(ps) and ps.decl().kind() == z3.Z3_OP_SEQ_UNIT:
+                inner = ps.children()[0]
+                if z3.is_string_value(inner):
+                    return strmodel._zstr(inner)
+                return SV("str", inner)
         return SV("str", f_path_str(self.anchor_t(), self.parts))
 
     def to_repr(self, it):
